@@ -65,6 +65,12 @@ class Model(object):
         if self.w is None:
             raise Reject('weighting not modelled')
         fam = cfg['fam']
+        if self.w.size and np.ptp(self.w) > 1e-14 * np.max(np.abs(self.w)) \
+                and fam in ('l2', 'l2_trans', 'l2ball', 'groupl1', 'l2_p',
+                            'l2sq_p'):
+            # these models describe (dual) norm balls as Euclidean balls of
+            # radius lam / sqrt(w): only right for one weight per space
+            raise Reject('array weighting not modelled for this family')
         g = np_rng('func', cfg['seed'])   # same stream as problems.build_func
         self.lam = cfg.get('lam', 1.0)
         self.b = None
